@@ -109,8 +109,7 @@ class LCDDocFilter(DocumentFilter):
     supported_styles = {
       StyleProperties.DisplayAlign: [],
       StyleProperties.Extent: [],
-      StyleProperties.Origin: [],
-      StyleProperties.Position: []
+      StyleProperties.Origin: []
     }
 
     if self.config.preserve_text_align:
@@ -123,6 +122,12 @@ class LCDDocFilter(DocumentFilter):
       supported_styles.update({StyleProperties.BackgroundColor: []})
 
     style_filter = SupportedStylePropertiesFilter(supported_styles)
+
+    # the position of a region is converted to an origin below
+
+    region_style_filter = SupportedStylePropertiesFilter({**supported_styles, StyleProperties.Position: []})
+
+    initial_position = doc.get_initial_value(StyleProperties.Position)
 
     style_filter.process_initial_values(doc)
 
@@ -152,27 +157,28 @@ class LCDDocFilter(DocumentFilter):
       animation_filter.process_element(region)
 
       # cleanup styles
-      style_filter.process_element(region)
+      region_style_filter.process_element(region)
+
+      # compute extent, which is needed to compute the position
+      if region.get_style(StyleProperties.Extent) is None:
+        region.set_style(StyleProperties.Extent, initial_extent if initial_extent is not None \
+                         else StyleProperties.Extent.make_initial_value() )
+
+      StyleProcessors.Extent.compute(None, region)
 
       # compute origin
-      if (region.get_style(StyleProperties.Origin)) is not None:
-        StyleProcessors.Origin.compute(None, region)
-
-      if (region.get_style(StyleProperties.Position)) is not None:
-        StyleProcessors.Position.compute(None, region)
-        region.set_style(StyleProperties.Position, None)
+      if region.get_style(StyleProperties.Position) is None and region.get_style(StyleProperties.Origin) is None:
+        region.set_style(StyleProperties.Position, initial_position)
 
       if region.get_style(StyleProperties.Origin) is None:
         region.set_style(StyleProperties.Origin, initial_origin if initial_origin is not None \
                          else StyleProperties.Origin.make_initial_value())
 
-      # compute extent
-      if (region.get_style(StyleProperties.Extent)) is not None:
-        StyleProcessors.Extent.compute(None, region)
+      StyleProcessors.Origin.compute(None, region)
 
-      if region.get_style(StyleProperties.Extent) is None:
-        region.set_style(StyleProperties.Extent, initial_extent if initial_extent is not None \
-                         else StyleProperties.Extent.make_initial_value() )
+      if (region.get_style(StyleProperties.Position)) is not None:
+        StyleProcessors.Position.compute(None, region)
+        region.set_style(StyleProperties.Position, None)
 
       # computer writing_mode and display_align
 
@@ -227,8 +233,8 @@ class LCDDocFilter(DocumentFilter):
       # check if a similar region has already been processed
 
       fingerprint = (
-          region.get_begin() or 0,
-          region.get_end() or None,
+          region.get_begin() if region.get_begin() is not None else 0,
+          region.get_end(),
           writing_mode,
           new_display_align
         )
